@@ -419,6 +419,23 @@ pub fn fillers(k: usize) -> Vec<Node> {
     let mut e = Enumerator::new(g);
     let mut out = Vec::new();
     e.for_each_upto(k, &mut |_, n| out.push(n));
+    if k >= 3 {
+        // hand-picked larger fillers: a variable-size part followed by something that forces
+        // backtracking into it (they need 4-5 nodes)
+        let set_ab = || Node::Set(vec!['a', 'b'], false);
+        out.extend(vec![
+            cat(vec![star(lit("a")), lit("b")]),
+            cat(vec![star(Node::Dot), lit("b")]),
+            cat(vec![star(lit("a")), lit("ab")]),
+            cat(vec![star(set_ab()), lit("b"), lit("b")]),
+            cat(vec![rep(lit("a"), 0, None, Mode::Lazy), lit("b")]),
+            cat(vec![plus(Node::Set(vec!['a'], true)), lit("a")]),
+            cat(vec![opt(Node::Dot), lit("a")]),
+            cat(vec![alt(vec![lit("a"), lit("ab")]), lit("b")]),
+            cat(vec![grp(star(lit("a"))), lit("a")]),
+            cat(vec![rep(lit("a"), 1, Some(2), Mode::Greedy), lit("a")]),
+        ]);
+    }
     out
 }
 
@@ -503,6 +520,11 @@ pub fn contexts() -> Vec<Context> {
         ("(□)(□')\\2\\1", cat(vec![grp(h0()), grp(h1()), Node::Backref(2), Node::Backref(1)])),
         ("(?=(□))\\1", cat(vec![la(grp(h0())), Node::Backref(1)])),
         ("(?>□)(□')\\1", cat(vec![atomic(h0()), grp(h1()), Node::Backref(1)])),
+        ("(?<=x)(□)\\1□'", cat(vec![lb(x()), grp(h0()), Node::Backref(1), h1()])),
+        // many slots written in one frame, then a fallback that must see them restored
+        ("(?:(□)(□)(□)(□)\\1){2}b|□'+", alt(vec![cat(vec![rep2(cat(vec![grp(h0()), grp(h0()), grp(h0()), grp(h0()), Node::Backref(1)])), y()]), plus(h1())])),
+        // two cuts in one run: an atomic group inside a possessive loop
+        ("(?:(□)(?>\\1|□'))*+b|a+", alt(vec![cat(vec![poss_star(cat(vec![grp(h0()), atomic(alt(vec![Node::Backref(1), h1()]))])), y()]), plus(x())])),
         ("(?:(□)|x)\\1?", cat(vec![alt(vec![grp(h0()), x()]), opt(Node::Backref(1))])),
         // self-referential back-references (unscoped: used by C05/C07/C09 only)
         ("(?:(\\1?□)□')+", plus(cat(vec![grp(cat(vec![opt(Node::Backref(1)), h0()])), h1()]))),
@@ -531,6 +553,14 @@ pub fn contexts() -> Vec<Context> {
         ("(?>(?:(□)(?=□'))*)b|a+", alt(vec![cat(vec![atomic(star(cat(vec![grp(h0()), la(h1())]))), y()]), plus(x())])),
         ("(?:(?>(□)(?!b)|□'))+?b", cat(vec![lazy_plus(atomic(alt(vec![cat(vec![grp(h0()), nla(y())]), h1()]))), y()])),
         ("(?=(?:(□)□')*)\\1*b|.", alt(vec![cat(vec![la(star(cat(vec![grp(h0()), h1()]))), star(Node::Backref(1)), y()]), Node::Dot])),
+        // nested look-arounds (the inner one starts at a different position than the outer)
+        ("(?=□(?=□'))", la(cat(vec![h0(), la(h1())]))),
+        ("(?=□(?=□'))a", cat(vec![la(cat(vec![h0(), la(h1())])), x()])),
+        ("(?<=(?=□)□')b", cat(vec![lb(cat(vec![la(h0()), h1()])), y()])),
+        ("(□)(?=□'(?<=ab))b\\1", cat(vec![grp(h0()), la(cat(vec![h1(), lb(lit("ab"))])), y(), Node::Backref(1)])),
+        // groups that do not participate in every match / inside a {0} repeat
+        ("(□)|(□')", alt(vec![grp(h0()), grp(h1())])),
+        ("(?:(?=(□))□'){0}(□)", cat(vec![rep(cat(vec![la(grp(h0())), h1()]), 0, Some(0), Mode::Greedy), grp(h0())])),
         // the same piece delegated twice (identical delegate text, different group numbers)
         ("(□)\\b(□)", cat(vec![grp(h0()), Node::Assert(A::WordB), grp(h0())])),
         ("(?<=(□))x(?=(□))", cat(vec![lb(grp(h0())), x(), la(grp(h0()))])),
